@@ -296,8 +296,9 @@ func (conn *Tunnel) requestTunnel(data cemi.Message) error {
 				return errors.New("connection server has terminated")
 			}
 
-			// Ignore mismatching sequence numbers.
-			if res.SeqNumber != conn.seqNumber {
+			// Ignore mismatching sequence numbers, and acknowledgements which were validated
+			// against the channel of a previous connection and have been waiting since.
+			if res.Channel != conn.channel || res.SeqNumber != conn.seqNumber {
 				continue
 			}
 
